@@ -11,7 +11,8 @@ import ast
 
 class Loop:
     def __init__(self, inv=(), ghost=None, ghost_update=None, decreases=None, index="_k", kinds=None, keep=(),
-                 heap=None, havoc_hooks=()):
+                 heap=None, havoc_hooks=(), mode="cut"):
+        self.mode = mode  # "cut": invariant-based loop cut; "step": one iteration from the (arbitrary) entry state
         self.inv = list(inv)
         self.ghost = dict(ghost or {})
         self.ghost_update = dict(ghost_update or {})
@@ -89,6 +90,7 @@ class Registry:
         self.specs = {}
         self.force_inline = set()
         self.auto_loop_handler = None
+        self.models = {}  # qualname -> callable(ex, args, kwargs): engine-side model of an external function
         self.by_contract_default = True
         self.callee_log = []  # (caller, callee, 'contract'|'body') for evidence
         self.native_specs = {}
@@ -127,6 +129,8 @@ class Registry:
 
     # -- call dispatch
     def policy(self, ex, qn):
+        if qn in self.models:
+            return "model"
         cur = None
         for f in reversed(ex.frames):
             if f.verifying:
@@ -149,6 +153,8 @@ class Registry:
             self.callee_log.append((caller, qn, pol))
         if len(self.callee_log) > 200000:
             del self.callee_log[:100000]
+        if pol == "model":
+            return self.models[qn](ex, args, kwargs)
         if pol == "contract":
             c = self.contract_for(ex, qn, args, kwargs)
             if c is not None:
